@@ -333,6 +333,8 @@ func c15ServerRun(t *testing.T, tr *vlib.Trace, b c15Beh) {
 				case *http2.GoAwayFrame:
 					if !ended.Load() {
 						rec.emit("goaway", "code", int(f.ErrCode), "debug", string(f.DebugData()))
+						// the server closes the connection up to 1 s after a GOAWAY: the timeline stops here
+						closed.Store(true)
 					}
 				}
 			}
